@@ -23,16 +23,23 @@ func init() {
 		states := sh.enum("state")
 		classes := sh.enum("class")
 		actions := sh.enum("action")
-		if states == nil || classes == nil || actions == nil {
-			return
+		// not recognised (x.fail has been called): continue with the pinned names so that Gen still builds
+		if states == nil {
+			states = []string{"stNone", "stBreak", "stBreakQ", "stWord", "stWordQ", "stSingle", "stDouble", "stDoubleQ"}
+		}
+		if classes == nil {
+			classes = []string{"clOther", "clBreak", "clNewline", "clQuote", "clSingle", "clDouble"}
+		}
+		if actions == nil || len(actions) != 4 {
+			if actions != nil {
+				x.fail("expected exactly the four actions drop, push, xpush, emit; found %v", actions)
+			}
+			actions = []string{"drop", "push", "xpush", "emit"}
 		}
 		for _, want := range []string{"drop", "push", "xpush", "emit"} {
 			if indexOf(actions, want) < 0 {
 				x.fail("action %q is no longer declared", want)
 			}
-		}
-		if len(actions) != 4 {
-			x.fail("expected exactly the four actions drop, push, xpush, emit; found %v", actions)
 		}
 		x.emit("/-- `type state int` constants, in declaration order (value = position) -/\ninductive St where\n")
 		for _, s := range states {
@@ -457,8 +464,85 @@ func init() {
 				x.emit("/-- `Join`: the separator written between quoted elements -/\ndef joinSep : UInt8 := %d\n", sep)
 			}
 		}
+		sh.fallbacks()
 	}})
 }
+
+// fallbacks emits a default for every definition the model needs but the
+// extractor could not produce (each such case has already called x.fail, so the
+// tie counts as broken); the Lean library and the driver still build, and the
+// correspondence check can go on to look for a concrete failing input.
+func (s *shellX) fallbacks() {
+	out := s.out.String()
+	// the pinned values (shell.go @659f7fc) when the enum names are the pinned ones, neutral values otherwise
+	pinned := strings.Contains(out, "| stDoubleQ\n") && strings.Contains(out, "| clDouble\n") && strings.Contains(out, "| stBreak\n") && strings.Contains(out, "| stWord\n")
+	pick := func(p, neutral string) string {
+		if pinned {
+			return p
+		}
+		return neutral
+	}
+	for _, d := range [][2]string{
+		{"classBytes", pick("def classBytes : List (UInt8 × Cl) := [(32, .clBreak), (9, .clBreak), (10, .clNewline), (92, .clQuote), (39, .clSingle), (34, .clDouble)]", "def classBytes : List (UInt8 × Cl) := []")},
+		{"classOf", pick("def classOf (c : UInt8) : Cl :=\n  if c = 32 then .clBreak else if c = 9 then .clBreak else if c = 10 then .clNewline else if c = 92 then .clQuote else if c = 39 then .clSingle else if c = 34 then .clDouble else .clOther", "def classOf (_ : UInt8) : Cl := default")},
+		{"mustQuote", "def mustQuote : List UInt8 := [124, 38, 59, 60, 62, 40, 41, 36, 96, 92, 34, 9, 10]"},
+		{"shouldQuote", "def shouldQuote : List UInt8 := [42, 63, 91, 35, 126, 61, 37]"},
+		{"spaces", "def spaces : List UInt8 := [32, 9, 10]"},
+		{"allQuote", "def allQuote : List UInt8 := mustQuote ++ shouldQuote ++ spaces"},
+		{"initState", pick("def initState : St := .stBreak", "def initState : St := default")},
+		{"resetState", pick("def resetState : St := .stBreak", "def resetState : St := default")},
+		{"restState", pick("def restState : St := .stNone", "def restState : St := default")},
+		{"completeStates", pick("def completeStates : List St := [.stBreak, .stWord]", "def completeStates : List St := []")},
+		{"eofNoToken", pick("def eofNoToken : List St := [.stBreak]", "def eofNoToken : List St := []")},
+		{"xpushBytes", "def xpushBytes (c : UInt8) : List UInt8 := [92, c]"},
+		{"bufUses", "def bufUses : List String := []"},
+		{"quoteByte", "def quoteByte : UInt8 := 39"},
+		{"quoteByteLoop", "def quoteByteLoop : UInt8 := 39"},
+		{"escapeByte", "def escapeByte : UInt8 := 92"},
+		{"emptyQuoted", "def emptyQuoted : List UInt8 := [39, 39]"},
+		{"joinSep", "def joinSep : UInt8 := 32"},
+	} {
+		if !strings.Contains(out, "\ndef "+d[0]+" ") {
+			s.emit("/-- FALLBACK (pinned value): not recognised in the Go source -/\n%s\n", d[1])
+		}
+	}
+	if !strings.Contains(out, "\ndef update ") {
+		if pinned {
+			s.emit("/-- FALLBACK (pinned table): `var update` not recognised in the Go source -/\n%s\n", pinnedUpdate)
+		} else {
+			s.emit("/-- FALLBACK: `var update` not recognised in the Go source -/\ndef update (st : St) (_ : Cl) : St × Act := (st, .panic)\n")
+		}
+	}
+}
+
+const pinnedUpdate = `def update : St → Cl → St × Act
+  | .stNone, _ => (.stNone, .panic)
+  | .stBreak, .clOther => (.stWord, .push)
+  | .stBreak, .clBreak => (.stBreak, .drop)
+  | .stBreak, .clNewline => (.stBreak, .drop)
+  | .stBreak, .clQuote => (.stBreakQ, .drop)
+  | .stBreak, .clSingle => (.stSingle, .drop)
+  | .stBreak, .clDouble => (.stDouble, .drop)
+  | .stBreakQ, .clNewline => (.stBreak, .drop)
+  | .stBreakQ, _ => (.stWord, .push)
+  | .stWord, .clOther => (.stWord, .push)
+  | .stWord, .clBreak => (.stBreak, .emit)
+  | .stWord, .clNewline => (.stBreak, .emit)
+  | .stWord, .clQuote => (.stWordQ, .drop)
+  | .stWord, .clSingle => (.stSingle, .drop)
+  | .stWord, .clDouble => (.stDouble, .drop)
+  | .stWordQ, .clNewline => (.stWord, .drop)
+  | .stWordQ, _ => (.stWord, .push)
+  | .stSingle, .clSingle => (.stWord, .drop)
+  | .stSingle, _ => (.stSingle, .push)
+  | .stDouble, .clQuote => (.stDoubleQ, .drop)
+  | .stDouble, .clDouble => (.stWord, .drop)
+  | .stDouble, _ => (.stDouble, .push)
+  | .stDoubleQ, .clNewline => (.stDouble, .drop)
+  | .stDoubleQ, .clQuote => (.stDouble, .push)
+  | .stDoubleQ, .clDouble => (.stDouble, .push)
+  | .stDoubleQ, _ => (.stDouble, .xpush)
+`
 
 type shellX struct {
 	*X
